@@ -37,7 +37,7 @@ var profiles = map[string]*Profile{
 	"C02": {Name: "C02", MaxConns: 6, MaxSess: 2, Len: 90, StepPct: 85, SnapPct: 3,
 		W: map[string]int{"connect": 5, "disconnect": 5, "join": 16, "entity_add": 12, "entity_delete": 7, "pose": 26, "tick": 14, "step": 4, "custom": 8, "action": 8, "asset": 6, "comp_add": 2, "type_add": 1}},
 	"C03": {Name: "C03", MaxConns: 6, MaxSess: 3, Len: 120, W: withW(map[string]int{"join": 20, "disconnect": 5, "latency": 0, "ping_resp": 0, "receipt": 0, "action": 10, "asset": 8, "entity_add": 12, "pose": 4, "comp_update": 3, "tick": 4}), StepPct: 92, SnapPct: 100},
-	"C04": {Name: "C04", MaxConns: 5, MaxSess: 3, Len: 100, W: withW(map[string]int{"tick": 3, "pose": 3, "comp_update": 3, "custom": 2, "receipt": 3, "dagaz": 3, "ping": 2}), StepPct: 90, SnapPct: 45},
+	"C04": {Name: "C04", MaxConns: 5, MaxSess: 3, Len: 100, W: withW(map[string]int{"latency": 6, "ping_resp": 18, "tick": 3, "pose": 3, "comp_update": 3, "custom": 2, "receipt": 3, "dagaz": 3, "ping": 2}), StepPct: 90, SnapPct: 45},
 	"C05": {Name: "C05", MaxConns: 6, MaxSess: 2, Len: 90, StepPct: 85, SnapPct: 15,
 		W: map[string]int{"connect": 4, "disconnect": 6, "join": 14, "entity_add": 14, "entity_delete": 14, "pose": 14, "tick": 8, "step": 3, "asset": 12, "action": 2}},
 	"C06": {Name: "C06", MaxConns: 6, MaxSess: 2, Len: 100, StepPct: 88, SnapPct: 25,
